@@ -153,6 +153,21 @@ class PyOpt:
         return f"Opt({self.isnone}, {self.some!r})"
 
 
+LE_BYTES = z3.Function("literal_is_bytes", z3.StringSort(), z3.BoolSort())     # ast.literal_eval(text) is a bytes object
+LE_VAL = z3.Function("literal_value", z3.StringSort(), Val)                       # ... its value
+LCAT = z3.Function("literal_concat", Val, Val, Val)                               # value of a + b for two str / two bytes values
+
+
+class PyLit:
+    """the result of ast.literal_eval on a string-literal token: str or bytes (a flag) and an abstract value"""
+
+    def __init__(self, isbytes, val):
+        self.isbytes, self.val = isbytes, val
+
+    def __repr__(self):
+        return f"Lit({self.isbytes}, {self.val})"
+
+
 class PyStrDict:
     """a constant dict[str, str] read from the real `__init__` (e.g. Tokenizer._end_parens): only `.get` / `in` are used"""
 
@@ -260,4 +275,10 @@ def clone(v, memo):
         return PyCallable(v.kind, v.name, v.ident, clone(v.bound, memo), v.strict)
     if isinstance(v, PyOpt):
         return PyOpt(v.isnone, clone(v.some, memo))
+    if type(v).__name__ == "PyDictLit":          # dict literal (defined in pyexpr): mutable through d[k] = v, so every path gets its own
+        if id(v) in memo:
+            return memo[id(v)]
+        n = type(v)({k: clone(x, memo) for k, x in v.d.items()})
+        memo[id(v)] = n
+        return n
     return v
